@@ -13,7 +13,7 @@ import sys
 import weakref
 
 from .. import kernel
-from ..kernel import Violation, Boom, SimHang
+from ..kernel import Violation, Boom, Crash, SimHang
 
 Counter = collections.Counter
 OP_BUDGET = 40000
@@ -1048,6 +1048,8 @@ class Interp:
             e = d.Quit()
         elif kind == 'SwitchWorld':
             e = d.SwitchWorld(d.Handle())
+        elif kind == 'Crash':
+            e = Crash('injected')       # not an Exception (KeyboardInterrupt)
         else:
             e = Boom('injected')
         e._injected = True
@@ -1272,7 +1274,8 @@ def gen_script(prop, rng, cfg, state, act, acts):
     return fault_script(rng.choice(FAULT_KINDS), rng, state)
 
 
-FAULT_KINDS = ['raise_Boom', 'raise_Quit', 'raise_SwitchWorld', 'disable',
+FAULT_KINDS = ['raise_Boom', 'raise_Quit', 'raise_SwitchWorld', 'raise_Crash',
+               'disable',
                'disable_enable', 'redispatch', 'enable', 'add_handler',
                'remove_handler', 'swap_handlers', 'guarded_nested_release',
                'disable_dispatch']
